@@ -31,14 +31,20 @@ def txt(tokens):
     return u"".join(tokens)
 
 
+UC_TOKEN, UC_CHAR = u"~e", u"\u00e9"     # Outline_MC writes the unicode value as an ASCII token (see UC there)
+
+
 def norm(x):
-    """ToJson prints an empty function as {}: every empty container of a case is an empty sequence"""
+    """decode a case emitted by Outline_MC: UC token -> the unicode character; an empty container is an empty
+    sequence (ToJson may print an empty function as {})"""
     if isinstance(x, dict):
         if not x:
             return []
         return {k: norm(v) for k, v in x.items()}
     if isinstance(x, list):
         return [norm(v) for v in x]
+    if isinstance(x, str):
+        return x.replace(UC_TOKEN, UC_CHAR)
     return x
 
 
